@@ -331,6 +331,9 @@ func (w *StoreWorld) Exec(s Step) {
 		env := w.env(now, *s.Env)
 		err := w.Store.Enqueue(env)
 		w.loc = fmt.Sprintf("%s/enqueue/%s/%s", w.Cfg.Backend, w.Model.Cfg.DropPolicy, errClass(err))
+		if w.Model.Reused[env.ID] {
+			w.loc += "/reused-id"
+		}
 		r.logf("enqueue id=%s route=%s target=%s len=%d -> %s", w.nameID(env.ID), env.Route, env.Target, len(env.Payload), errClass(err))
 		w.add(w.Model.Enqueue(now, []queue.Envelope{env}, false, 0, err))
 		if err != nil {
@@ -353,6 +356,12 @@ func (w *StoreWorld) Exec(s Step) {
 		}
 		n, err := be.EnqueueBatch(envs)
 		w.loc = fmt.Sprintf("%s/enqueue_batch/%s/%s", w.Cfg.Backend, w.Model.Cfg.DropPolicy, errClass(err))
+		for _, e := range envs {
+			if w.Model.Reused[e.ID] {
+				w.loc += "/reused-id"
+				break
+			}
+		}
 		r.logf("enqueue_batch n=%d -> %d %s", len(envs), n, errClass(err))
 		w.add(w.Model.Enqueue(now, envs, true, n, err))
 		if err != nil {
